@@ -4,6 +4,7 @@ import (
 	"go/ast"
 	"go/token"
 	"go/types"
+	"strings"
 
 	"golang.org/x/tools/go/cfg"
 )
@@ -389,4 +390,86 @@ func (f *FCFG) reachableFromAvoidingBlocks(start, target *cfg.Block, blocked map
 		return false
 	}
 	return dfs(start)
+}
+
+// helperMust: does every path through the declared same-module function h, from
+// entry to a return that is not an error exit, pass a node accepted by pred?
+// Calls to further helpers are followed to a small depth.  Used so that a path
+// rule keeps holding when the statements it looks for are moved, unchanged,
+// into a helper that the original site now calls (the most common refactoring).
+//
+// An "error exit" is a return whose (last) result is an Error*/Errorf*
+// construction, or which sits in the body of an `if x != nil` / `x.Type == LError`
+// test: the caller's loop or sequence is left on that path, so the obligation
+// does not apply to it.
+func (c *Ctx) helperMust(h *types.Func, pred func(info *types.Info, n ast.Node) bool, depth int) bool {
+	fd := c.declOf[originOf(h)]
+	if fd == nil || fd.Body == nil || depth > 2 {
+		return false
+	}
+	pkg := c.pkgOf[fd]
+	info := pkg.TypesInfo
+	u := FuncUnit{originOf(h), fd, pkg}
+	fc := c.cfgOf(u, nil)
+	accept := func(n ast.Node) bool {
+		if pred(info, n) {
+			return true
+		}
+		for _, ce := range callsIn(n, false) {
+			if g := originOf(Callee(info, ce)); g != nil && g != originOf(h) && c.declOf[g] != nil && g.Pkg() == h.Pkg() {
+				if c.helperMust(g, pred, depth+1) {
+					return true
+				}
+			}
+		}
+		return false
+	}
+	isErrExit := func(b *cfg.Block) bool {
+		for _, n := range b.Nodes {
+			rs, ok := n.(*ast.ReturnStmt)
+			if !ok || len(rs.Results) == 0 {
+				continue
+			}
+			last := ast.Unparen(rs.Results[len(rs.Results)-1])
+			if ce, ok := last.(*ast.CallExpr); ok {
+				if f := Callee(info, ce); f != nil && (strings.HasPrefix(f.Name(), "Error") || strings.HasSuffix(f.Name(), "Errorf")) {
+					return true
+				}
+			}
+		}
+		return false
+	}
+	through := map[*cfg.Block]bool{}
+	for _, b := range fc.G.Blocks {
+		if !fc.Live(b) {
+			continue
+		}
+		for _, n := range b.Nodes {
+			if accept(n) {
+				through[b] = true
+			}
+		}
+		if isErrExit(b) {
+			through[b] = true
+		}
+	}
+	if len(through) == 0 {
+		return false
+	}
+	return !fc.exitReachableAvoiding(through, nil)
+}
+
+// nodeMust: n itself satisfies pred, or calls a helper that must (helperMust).
+func (c *Ctx) nodeMust(info *types.Info, pkg *types.Package, n ast.Node, pred func(info *types.Info, n ast.Node) bool) bool {
+	if pred(info, n) {
+		return true
+	}
+	for _, ce := range callsIn(n, false) {
+		if g := originOf(Callee(info, ce)); g != nil && c.declOf[g] != nil && g.Pkg() == pkg {
+			if c.helperMust(g, pred, 0) {
+				return true
+			}
+		}
+	}
+	return false
 }
